@@ -488,11 +488,9 @@ def r4_robust_listing(repo=None):
     return r
 
 
-def r5_lookback_complete(repo=None):
-    """Role-based: the look-back loop is the loop (in any function, private helpers inlined) that walks *backwards* over the
-    sub-directories before the selected ones, lists each of them and leaves (break / return) when it found files.  Leaving must be
-    possible only with a non-empty list of matching files."""
-    r = Rule("C14.R5", "the forward-fill look-back continues until a sub-directory that holds a matching file is found")
+def _lookback_loop(repo=None):
+    """(module, qualified name, flat view, loop) of the look-back loop: the backwards loop over the sub-directories before the
+    selected ones that lists each of them, decorates its files and leaves when it found some - in whichever function it lives"""
     m = pyfront.mod("list_drf", repo)
     DD = decorate_name(repo)
     SL = slice_name(repo)
@@ -519,7 +517,17 @@ def r5_lookback_complete(repo=None):
     if len(cands) != 1:
         raise AnalysisError("list_drf: the look-back loop (a backwards loop over earlier sub-directories that lists them, decorates their "
                             "files and leaves) was not found exactly once (%d candidates)" % len(cands))
-    q, view, lp = cands[0]
+    return m, cands[0][0], cands[0][1], cands[0][2]
+
+
+def r5_lookback_complete(repo=None):
+    """Role-based: the look-back loop is the loop (in any function, private helpers inlined) that walks *backwards* over the
+    sub-directories before the selected ones, lists each of them and leaves (break / return) when it found files.  Leaving must be
+    possible only with a non-empty list of matching files."""
+    r = Rule("C14.R5", "the forward-fill look-back continues until a sub-directory that holds a matching file is found")
+    m, q, view, lp = _lookback_loop(repo)
+    DD = decorate_name(repo)
+    SL = slice_name(repo)
     it = norm(ast.unparse(lp.iter))
     back_ok = False
     if isinstance(lp.iter, ast.Call) and pyfront.call_name(lp.iter) == "range" and len(lp.iter.args) == 3 \
@@ -936,8 +944,9 @@ def r8_forward_fill_file_always_taken(repo=None):
                         "bisect_left the entry at the index has time >= start, so this is the case of a file named exactly by the start "
                         "time: the latest file before start is then not listed" % ", ".join("%s=%s" % kv for kv in sorted(wit.items())),
                         line=decs[0].lineno)
-    # (b) the look-back condition
-    x5 = r5_lookback_complete(repo)     # locates the look-back loop (raises if not found)
+    # (b) the look-back condition: the `if` (mentioning starttime) around the look-back loop, or around the call of the helper
+    #     that holds the loop
+    _m2, lq, lview, lp = _lookback_loop(repo)
     q = kernel_name(repo)
     DD = decorate_name(repo)
     view = m.flat(q, keep=(DD, SL), depth=4)
@@ -946,19 +955,21 @@ def r8_forward_fill_file_always_taken(repo=None):
     for n in ast.walk(kf):
         for ch in ast.iter_child_nodes(n):
             kpar[ch] = n
-    loops = [lp for lp in ast.walk(kf) if isinstance(lp, ast.For) and any(
-        isinstance(c, ast.Call) and pyfront.call_name(c) == "os.listdir" for c in ast.walk(lp)) and any(
-        isinstance(b, (ast.Break, ast.Return)) for b in ast.walk(lp)) and (
-        (isinstance(lp.iter, ast.Call) and pyfront.call_name(lp.iter) in ("range", "reversed")))]
-    loops = [lp for lp in loops if not any(o is not lp and any(x is lp for x in ast.walk(o)) for o in loops)] or loops
+    if lq == q or any(x is lp for x in ast.walk(kf)):
+        anchors = [x for x in ast.walk(kf) if isinstance(x, ast.For) and norm(ast.unparse(x.iter)) == norm(ast.unparse(lp.iter))
+                   and any(isinstance(c, ast.Call) and pyfront.call_name(c) == "os.listdir" for c in ast.walk(x))]
+        anchors = [a_ for a_ in anchors if not any(o is not a_ and any(y is a_ for y in ast.walk(o)) for o in anchors)] or anchors
+    else:
+        anchors = [c for c in ast.walk(kf) if isinstance(c, ast.Call) and pyfront.call_name(c) == lq]
     guards = []
-    for lp in loops:
-        p = kpar.get(lp)
-        ch = lp
+    for a_ in anchors:
+        p = kpar.get(a_)
+        ch = a_
         while p is not None and not isinstance(p, (ast.FunctionDef,)):
-            if isinstance(p, ast.If) and any(ch is x for x in p.body) and any(
+            if isinstance(p, ast.If) and any(any(y is ch for y in ast.walk(x)) for x in p.body) and any(
                     isinstance(x, ast.Name) and x.id == "starttime" for x in ast.walk(p.test)):
-                guards.append(p)
+                if p not in guards:
+                    guards.append(p)
                 break
             ch = p
             p = kpar.get(p)
